@@ -64,6 +64,8 @@ def run(index: RepoIndex, rep) -> None:
     from ..unpack import unpack_rule
     unpack_rule(index, rep, 'C18.R10', ('gym_gridverse/geometry.py', 'gym_gridverse/grid.py',
                                         'gym_gridverse/envs/utils.py'))
+    from .c11 import scan_once
+    scan_once(index, rep, 'C18.R11')
     rep.rule('C18.R8', 'geometry operators and grid rotations are pure functions of their '
              'operands (no in-place update, no cache)', floor=15)
     purity(index, rep)
@@ -372,6 +374,11 @@ def run(index: RepoIndex, rep) -> None:
 def purity(index: RepoIndex, rep) -> None:
     from ..effects import Effects
     eff = Effects(index)
+    # "no cache": a memoised helper in the geometry / grid modules must be keyed on what
+    # identifies its input and must not hand out a mutable cached object (C03.R4)
+    from .c03 import memo_rules
+    for rel_ in (GEOM, GRID):
+        memo_rules(index, rep, 'C18.R8', eff, only_rel=rel_)
     for rel, name in ((GEOM, 'Orientation.__mul__'), (GEOM, 'Orientation.__neg__'),
                       (GEOM, 'Position.__add__'), (GEOM, 'Position.__sub__'),
                       (GEOM, 'Position.__neg__'), (GEOM, 'Position.from_orientation'),
